@@ -1,16 +1,10 @@
 import DmlcModel.Basic
-import DmlcModel.Gen.Param
 import DmlcModel.Param.Model
+import DmlcModel.Param.FloatC14
 /-!
-The instance of `FloatOps` used by the line-protocol driver: a step-by-step mirror of
-`dmlc::ParseFloat<T, true>` + `dmlc::stof` / `dmlc::stod` (strtonum.h) in exact rational arithmetic
-with an explicit round-to-nearest-even after every C++ floating-point operation, and of
-`os << std::setprecision(P) << v` (= printf `%.Pg`, exact decimal expansion).
-
-The property theorems do not depend on this file (they are generic in `FloatOps`); it exists so that
-the correspondence run can compare float fields as bit patterns.  The mirror follows whichever of the
-C14 repairs are present in strtonum.h (`Gen.Param.stofErrnoLocal`, `scaleInfChecked`, `endBacksOff`,
-`nanParenLenient`).  Core Lean only, no `Float`.
+Printing side of the driver's `FloatOps`: `os << std::setprecision(P) << v` (= printf `%.Pg`, exact decimal
+expansion, round-half-even) in exact rational arithmetic, plus a small round-to-nearest-even toolkit.  The
+conversions text → float/double are the C14 models (`Param/FloatC14.lean`).  Core Lean only, no `Float`.
 -/
 namespace DmlcModel.Param.FloatImpl
 open DmlcModel DmlcModel.Param
@@ -19,21 +13,10 @@ structure Fmt where
   p : Nat        -- precision in bits (24 / 53)
   emax : Nat     -- 127 / 1023
   ebits : Nat    -- 8 / 11
-  maxExp : Nat   -- kMaxExponent: 38 / 308
-  maxSigN : Nat  -- kMaxSignificandForMaxExponent as a decimal fraction maxSigN / maxSigD
-  maxSigD : Nat
-  minSigN : Nat  -- kMaxSignificandForNegMaxExponent
-  minSigD : Nat
   prec : Nat     -- max_digits10 (9 / 17)
 
-def f32 : Fmt := ⟨24, 127, 8, 38, 3402823466, 1000000000, 1175494351, 1000000000, 9⟩
-def f64 : Fmt := ⟨53, 1023, 11, 308, 179769313486231570, 100000000000000000, 222507385850720139, 100000000000000000, 17⟩
-
-/-- a non-negative floating-point value: `m * 2^k`, or +infinity -/
-inductive FV
-  | fin (m : Nat) (k : Int)
-  | inf
-  deriving DecidableEq, Repr
+def f32 : Fmt := ⟨24, 127, 8, 9⟩
+def f64 : Fmt := ⟨53, 1023, 11, 17⟩
 
 /-- round-half-even of `a / b` (b > 0) -/
 def rhe (a b : Nat) : Nat :=
@@ -41,232 +24,8 @@ def rhe (a b : Nat) : Nat :=
   let r := a % b
   if 2 * r > b || (2 * r == b && q % 2 == 1) then q + 1 else q
 
-/-- floor (log2 (n / d)) for n, d > 0 -/
-def ilog2 (n d : Nat) : Int :=
-  let e : Int := (Nat.log2 n : Int) - (Nat.log2 d : Int)
-  -- 2^e ≤ n/d ?
-  let ge (e : Int) : Bool := if e ≥ 0 then decide (n ≥ d * 2 ^ e.toNat) else decide (n * 2 ^ (-e).toNat ≥ d)
-  if ge (e + 1) then e + 1 else if ge e then e else e - 1
-
-/-- round the exact non-negative rational `n / d` to the format (round to nearest, ties to even;
-gradual underflow; overflow to infinity) -/
-def rnd (f : Fmt) (n d : Nat) : FV :=
-  if n == 0 || d == 0 then .fin 0 0
-  else
-    let emin : Int := 1 - (f.emax : Int)
-    let e := ilog2 n d
-    let e' := if e < emin then emin else e
-    let k : Int := e' - ((f.p : Int) - 1)
-    let m := if k ≥ 0 then rhe n (d * 2 ^ k.toNat) else rhe (n * 2 ^ (-k).toNat) d
-    let (m, e', k) := if m == 2 ^ f.p then (2 ^ (f.p - 1), e' + 1, k + 1) else (m, e', k)
-    if e' > (f.emax : Int) then .inf else .fin m k
-
 /-- numerator / denominator of a finite value -/
 def toQ (m : Nat) (k : Int) : Nat × Nat := if k ≥ 0 then (m * 2 ^ k.toNat, 1) else (m, 2 ^ (-k).toNat)
-
-def fmul (f : Fmt) : FV → FV → FV
-  | .fin m1 k1, .fin m2 k2 =>
-    let (a, b) := toQ m1 k1
-    let (c, d) := toQ m2 k2
-    rnd f (a * c) (b * d)
-  | _, _ => .inf
-
-def fdiv (f : Fmt) : FV → FV → FV
-  | .fin m1 k1, .fin m2 k2 =>
-    let (a, b) := toQ m1 k1
-    let (c, d) := toQ m2 k2
-    if c == 0 then .inf else rnd f (a * d) (b * c)
-  | .fin _ _, .inf => .fin 0 0
-  | _, _ => .inf
-
-def fadd (f : Fmt) : FV → FV → FV
-  | .fin m1 k1, .fin m2 k2 =>
-    let (a, b) := toQ m1 k1
-    let (c, d) := toQ m2 k2
-    rnd f (a * d + c * b) (b * d)
-  | _, _ => .inf
-
-/-- conversion between formats (double → float) -/
-def fcast (f : Fmt) : FV → FV
-  | .fin m k => let (a, b) := toQ m k; rnd f a b
-  | .inf => .inf
-
-/-- `a > b` -/
-def fgt : FV → FV → Bool
-  | .fin m1 k1, .fin m2 k2 =>
-    let (a, b) := toQ m1 k1
-    let (c, d) := toQ m2 k2
-    decide (a * d > c * b)
-  | .inf, .fin _ _ => true
-  | _, _ => false
-
-/-- bit pattern of a signed value -/
-def encode (f : Fmt) (neg : Bool) : FV → Nat
-  | .inf => (if neg then 2 ^ (f.ebits + f.p - 1) else 0) + (2 ^ f.ebits - 1) * 2 ^ (f.p - 1)
-  | .fin m k =>
-    let sgn := if neg then 2 ^ (f.ebits + f.p - 1) else 0
-    if m == 0 then sgn
-    else
-      -- normalise so that the mantissa has p bits or the exponent is emin
-      let kmin : Int := 1 - (f.emax : Int) - ((f.p : Int) - 1)
-      let l := Nat.log2 m           -- m has l+1 bits
-      -- target: m' = m * 2^(k - k'), with k' = max (k + l - (p-1)) kmin
-      let k' : Int := if k + (l : Int) - ((f.p : Int) - 1) < kmin then kmin else k + (l : Int) - ((f.p : Int) - 1)
-      let m' := if k ≥ k' then m * 2 ^ (k - k').toNat else m / 2 ^ (k' - k).toNat
-      if m' < 2 ^ (f.p - 1) then sgn + m'
-      else
-        let biased : Int := k' + ((f.p : Int) - 1) + (f.emax : Int)
-        sgn + biased.toNat * 2 ^ (f.p - 1) + (m' - 2 ^ (f.p - 1))
-
-def nanBits (f : Fmt) : Nat := (2 ^ f.ebits - 1) * 2 ^ (f.p - 1) + 2 ^ (f.p - 2)
-
-/-! ### ParseFloat -/
-
-def peek (s : Bytes) : Nat := match s with | c :: _ => c.toNat | [] => 0
-def peek1 (s : Bytes) : Nat := match s with | _ :: c :: _ => c.toNat | _ => 0
-def peek2 (s : Bytes) : Nat := match s with | _ :: _ :: c :: _ => c.toNat | _ => 0
-def dDigit (c : Nat) : Bool := 48 ≤ c && c ≤ 57
-def dAlpha (c : Nat) : Bool := (97 ≤ c && c ≤ 122) || (65 ≤ c && c ≤ 90)
-
-def skipSp : Bytes → Nat → Bytes × Nat
-  | [], n => ([], n)
-  | c :: cs, n => if c.toNat != 0 && Gen.Param.dmlcIsSpace c.toNat then skipSp cs (n + 1) else (c :: cs, n)
-
-/-- case-insensitive prefix match `(*p | 32) == word[i]`, at most `word.length` characters -/
-def matchCI : List Nat → Bytes → Nat → Nat
-  | [], _, i => i
-  | w :: ws, s, i =>
-    match s with
-    | c :: cs => if (c.toNat ||| 32) == w then matchCI ws cs (i + 1) else i
-    | [] => i
-
-def digitsU64 : Bytes → Nat → Nat → Nat → Bytes × Nat × Nat × Nat
-  | [], acc, n, cnt => ([], acc, n, cnt)
-  | c :: cs, acc, n, cnt =>
-    if dDigit c.toNat then digitsU64 cs ((acc * 10 + (c.toNat - 48)) % 18446744073709551616) (n + 1) (cnt + 1)
-    else (c :: cs, acc, n, cnt)
-
-/-- fraction digits: only the first 19 contribute -/
-def fracDigits : Bytes → Nat → Nat → Nat → Nat → Bytes × Nat × Nat × Nat
-  | [], val2, pow10, n, _ => ([], val2, pow10, n)
-  | c :: cs, val2, pow10, n, cnt =>
-    if dDigit c.toNat then
-      if cnt < 19 then
-        fracDigits cs ((val2 * 10 + (c.toNat - 48)) % 18446744073709551616) ((pow10 * 10) % 18446744073709551616) (n + 1) (cnt + 1)
-      else fracDigits cs val2 pow10 (n + 1) (cnt + 1)
-    else (c :: cs, val2, pow10, n)
-
-def digitsU32 : Bytes → Nat → Nat → Bytes × Nat × Nat
-  | [], acc, n => ([], acc, n)
-  | c :: cs, acc, n =>
-    if dDigit c.toNat then digitsU32 cs ((acc * 10 + (c.toNat - 48)) % 4294967296) (n + 1) else (c :: cs, acc, n)
-
-def nanSeq : Bytes → Nat → Bytes × Nat
-  | [], n => ([], n)
-  | c :: cs, n => if dDigit c.toNat || dAlpha c.toNat || c.toNat == 95 then nanSeq cs (n + 1) else (c :: cs, n)
-
-def scaleLoop8 (f : Fmt) : Nat → Nat → FV → FV × Nat
-  | 0, e, s => (s, e)
-  | fuel + 1, e, s => if e ≥ 8 then scaleLoop8 f fuel (e - 8) (fmul f s (.fin 100000000 0)) else (s, e)
-
-def scaleLoop1 (f : Fmt) : Nat → Nat → FV → FV
-  | 0, _, s => s
-  | fuel + 1, e, s => if e > 0 then scaleLoop1 f fuel (e - 1) (fmul f s (.fin 10 0)) else s
-
-structure PF where
-  neg : Bool
-  val : Option FV      -- none = NaN
-  endp : Nat
-  erange : Bool
-  fatal : Bool
-
-/-- `ParseFloat<T, true>(nptr, &endptr)`; the byte list is the C string (a NUL byte ends it) -/
-def parseFloat (f : Fmt) (s0 : Bytes) : PF :=
-  let s0 := s0.takeWhile (fun c => c.toNat != 0)
-  let (s, p) := skipSp s0 0
-  let (neg, s, p) : Bool × Bytes × Nat :=
-    if peek s == 45 then (true, s.tail, p + 1) else if peek s == 43 then (false, s.tail, p + 1) else (false, s, p)
-  -- INF / INFINITY
-  let i := matchCI [105, 110, 102, 105, 110, 105, 116, 121] s 0
-  let infHit : Option Nat :=
-    if Gen.Param.endBacksOff then (if i ≥ 3 then some (if i < 8 then 3 else 8) else none)
-    else (if i == 3 || i == 8 then some i else none)
-  match infHit with
-  | some n => ⟨neg, some .inf, p + n, false, false⟩
-  | none =>
-  -- NAN
-  let j := matchCI [110, 97, 110] s 0
-  if j == 3 then
-    let s3 := s.drop 3
-    let p3 := p + 3
-    if peek s3 == 40 then
-      let (s4, n) := nanSeq s3.tail 0
-      if peek s4 == 41 then ⟨neg, none, p3 + 1 + n + 1, false, false⟩
-      else if Gen.Param.nanParenLenient then ⟨neg, none, p3, false, false⟩
-      else ⟨neg, none, p3, false, true⟩
-    else ⟨neg, none, p3, false, false⟩
-  else
-  -- digits before the point
-  let (s, predec, p, nd) :=
-    match digitsU64 s 0 0 0 with
-    | (s', acc, n, cnt) => (s', acc, p + n, cnt)
-  let hasDigits := nd > 0
-  let value := rnd f predec 1
-  -- fraction
-  let takeDot := peek s == 46 && (!Gen.Param.endBacksOff || hasDigits || dDigit (peek1 s))
-  let (s, value, p, hasDigits) : Bytes × FV × Nat × Bool :=
-    if takeDot then
-      match fracDigits s.tail 0 1 0 0 with
-      | (s', val2, pow10, n) =>
-        let q := fdiv f64 (rnd f64 val2 1) (rnd f64 pow10 1)
-        (s', fadd f value (fcast f q), p + 1 + n, true)
-    else (s, value, p, hasDigits)
-  if Gen.Param.endBacksOff && !hasDigits then ⟨neg, some (.fin 0 0), 0, false, false⟩
-  else
-  -- exponent
-  let takeExp := (peek s == 101 || peek s == 69) &&
-    (!Gen.Param.endBacksOff || dDigit (peek1 s) || ((peek1 s == 45 || peek1 s == 43) && dDigit (peek2 s)))
-  let step : Option PF × Bytes × FV × Nat :=
-    if takeExp then
-      let s := s.tail
-      let p := p + 1
-      let (frac, s, p) : Bool × Bytes × Nat :=
-        if peek s == 45 then (true, s.tail, p + 1) else if peek s == 43 then (false, s.tail, p + 1) else (false, s, p)
-      match digitsU32 s 0 0 with
-      | (s, expon, n) =>
-        let p := p + n
-        if expon > f.maxExp then (some ⟨neg, some .inf, p, true, false⟩, s, value, p)
-        else
-          let maxSig := fcast f (rnd f64 f.maxSigN f.maxSigD)
-          let minSig := fcast f (rnd f64 f.minSigN f.minSigD)
-          if expon == f.maxExp && ((!frac && fgt value maxSig) || (frac && fgt minSig value)) then
-            (some ⟨neg, some .inf, p, true, false⟩, s, value, p)
-          else
-            let (sc, e1) := scaleLoop8 f (expon + 1) expon (.fin 1 0)
-            let sc := scaleLoop1 f (e1 + 1) e1 sc
-            let v := if frac then fdiv f value sc else fmul f value sc
-            if Gen.Param.scaleInfChecked && v == .inf then (some ⟨neg, some .inf, p, true, false⟩, s, v, p)
-            else (none, s, v, p)
-    else (none, s, value, p)
-  match step with
-  | (some r, _, _, _) => { r with neg := false }     -- the ERANGE returns are +infinity
-  | (none, s, value, p) =>
-    let p := if peek s == 102 || peek s == 70 then p + 1 else p
-    ⟨neg, some value, p, false, false⟩
-
-/-- `dmlc::stof` / `dmlc::stod`; `stale` = `errno == ERANGE` on entry -/
-def sto (f : Fmt) (stale : Bool) (text : Bytes) : FRes :=
-  let r := parseFloat f text
-  if r.fatal then .fatal
-  else
-    let rangeErr := if Gen.Param.stofErrnoLocal then r.erange else (r.erange || stale)
-    let isPosInf := !r.neg && r.val == some .inf
-    if rangeErr && isPosInf then .outOfRange
-    else if r.endp == 0 then .invalid
-    else
-      match r.val with
-      | none => .ok (nanBits f) r.endp
-      | some v => .ok (encode f r.neg v) r.endp
 
 /-! ### printing (`%.Pg`) -/
 
@@ -321,8 +80,8 @@ def printG (f : Fmt) (bits : Nat) : Bytes :=
         let fp := stripZeros (List.replicate ((-x).toNat - 1) (48 : Byte) ++ ds)
         sgn ++ [48, 46] ++ fp
 
-/-- the `FloatOps` of the driver; `stale` = errno is ERANGE when the call starts -/
-def ops (stale : Bool) : FloatOps :=
-  { conv32 := sto f32 stale, conv64 := sto f64 stale, print32 := printG f32, print64 := printG f64 }
+/-- the `FloatOps` of the driver: conversions = the C14 model of `dmlc::stof` / `stod`, printing = `%.9g` / `%.17g`;
+`stale` = errno is ERANGE when the call starts -/
+def ops (stale : Bool) : FloatOps := opsC14 stale (printG f32) (printG f64)
 
 end DmlcModel.Param.FloatImpl
